@@ -44,7 +44,7 @@ impl View for S { type V = int; open spec fn view(&self) -> int { self.0 as int 
 pub open spec fn umax() -> int { u128::MAX as int }
 pub open spec fn imax() -> int { i128::MAX as int }
 pub open spec fn imin() -> int { i128::MIN as int }
-pub open spec fn unit() -> int { 100000000000000000000 }
+pub open spec fn uunit() -> int { 100000000000000000000 }
 
 // ---- comparisons ---------------------------------------------------------------------------
 impl PartialEqSpecImpl for N {
@@ -355,7 +355,7 @@ pub open spec fn fit_s(v: int) -> Option<S> { if imin() <= v <= imax() { Some(S(
 pub open spec fn sign(x: int) -> int { if x < 0 { -1 } else { 1 } }
 /// fixed-point integer power: pow_fixed(b,0)=UNIT, pow_fixed(b,k+1)=floor(pow_fixed(b,k)*b/UNIT)
 pub open spec fn pow_fixed(b: int, k: nat) -> int decreases k {
-    if k == 0 { unit() } else { (pow_fixed(b, (k - 1) as nat) * b) / unit() }
+    if k == 0 { uunit() } else { (pow_fixed(b, (k - 1) as nat) * b) / uunit() }
 }
 /// `pow_fixed(b, j)` fits the unsigned type for every j <= k (the loop of checked_pow_fixed
 /// fails at the first intermediate that does not fit).
@@ -642,6 +642,307 @@ pub proof fn lemma_mul_signed_abs(a: int, b: int)
     lemma_mul_nonnegative(a, abs(b));
     if b < 0 { lemma_mul_unary_negation(a, -b); }
 }
+
+} // verus!
+
+// ---- gmsol_model::fixed::Fixed<T, DECIMALS> at the instance (data carrier R11; comparison impls
+//      stand for the `#[derive(PartialEq, Eq, PartialOrd, Ord)]` on the one-field tuple struct) ----
+verus! {
+#[derive(Clone, Copy, Eq, Debug)]
+pub struct Fixed(pub N);
+impl View for Fixed { type V = int; open spec fn view(&self) -> int { self.0@ } }
+impl PartialEqSpecImpl for Fixed {
+    open spec fn obeys_eq_spec() -> bool { true }
+    open spec fn eq_spec(&self, other: &Fixed) -> bool { self.0.0 == other.0.0 }
+}
+impl PartialEq for Fixed { fn eq(&self, other: &Fixed) -> (r: bool) { self.0.0 == other.0.0 } }
+impl PartialOrdSpecImpl for Fixed {
+    open spec fn obeys_partial_cmp_spec() -> bool { true }
+    open spec fn partial_cmp_spec(&self, other: &Fixed) -> Option<Ordering> {
+        if self.0.0 < other.0.0 { Some(Ordering::Less) } else if self.0.0 == other.0.0 { Some(Ordering::Equal) } else { Some(Ordering::Greater) }
+    }
+}
+impl PartialOrd for Fixed {
+    fn partial_cmp(&self, other: &Fixed) -> (r: Option<Ordering>) {
+        if self.0.0 < other.0.0 { Some(Ordering::Less) } else if self.0.0 == other.0.0 { Some(Ordering::Equal) } else { Some(Ordering::Greater) }
+    }
+}
+impl OrdSpecImpl for Fixed {
+    open spec fn obeys_cmp_spec() -> bool { true }
+    open spec fn cmp_spec(&self, other: &Fixed) -> Ordering {
+        if self.0.0 < other.0.0 { Ordering::Less } else if self.0.0 == other.0.0 { Ordering::Equal } else { Ordering::Greater }
+    }
+}
+impl Ord for Fixed {
+    fn cmp(&self, other: &Fixed) -> (r: Ordering) {
+        if self.0.0 < other.0.0 { Ordering::Less } else if self.0.0 == other.0.0 { Ordering::Equal } else { Ordering::Greater }
+    }
+}
+
+/// The non-unit-exponent branch of `checked_pow_fixed` (rust_decimal `powd`, closures): OUT OF
+/// REACH, left unspecified (any result). The code documents it as inconsistent and to be avoided.
+#[verifier::external_body]
+pub fn pow_fixed_non_unit(base: &N, exponent: &N) -> (r: Option<N>)
+    requires exponent@ % uunit() != 0
+{ unimplemented!() }
+
+pub proof fn lemma_pow_fixed_fits_mono(b: int, j: nat, k: nat)
+    requires j <= k, pow_fixed_fits(b, k)
+    ensures pow_fixed_fits(b, j)
+    decreases k
+{
+    if j < k { lemma_pow_fixed_fits_mono(b, j, (k - 1) as nat); }
+}
+
+impl Fixed {
+    pub const ONE: Fixed = Fixed(N::UNIT);
+
+    pub fn from_inner(inner: N) -> (r: Fixed) ensures r.0 == inner
+{ // <<< body extracted from crates/model/src/fixed.rs:125 (from_inner) hash f5b58681dc64af17
+
+        Self(inner)
+    
+} // >>> end of extracted body
+
+    pub fn into_inner(self) -> (r: N) ensures r == self.0
+{ // <<< body extracted from crates/model/src/fixed.rs:131 (into_inner) hash 5b9b821579099935
+
+        self.0
+    
+} // >>> end of extracted body
+
+    pub fn is_zero(&self) -> (r: bool) ensures r == (self@ == 0)
+{ // <<< body extracted from crates/model/src/fixed.rs:182 (is_zero) hash 716deb1c2725deb4
+
+        self.0.is_zero()
+    
+} // >>> end of extracted body
+
+    pub fn is_one(&self) -> (r: bool) ensures r == (self@ == uunit())
+{ // <<< body extracted from crates/model/src/fixed.rs:192 (is_one) hash a36a44e11450cbeb
+
+        self.0 == Self::ONE.0
+    
+} // >>> end of extracted body
+
+    pub fn checked_mul(&self, v: &Fixed) -> (r: Option<Fixed>)
+        ensures
+            r.is_some() <==> mul_div_floor(self@, v@, uunit()) <= umax(),
+            r.is_some() ==> r.unwrap()@ == mul_div_floor(self@, v@, uunit()),
+{ // <<< body extracted from crates/model/src/fixed.rs:172 (checked_mul) hash 05ae32a4c8c9df2b
+
+        Some(Self(self.0.checked_mul_div(&v.0, &Self::ONE.0)?))
+    
+} // >>> end of extracted body
+
+    pub fn checked_pow(&self, exponent: &Fixed) -> (r: Option<Fixed>)
+        ensures
+            exponent@ % uunit() == 0 ==> (r.is_some() <==> pow_fixed_fits(self@, (exponent@ / uunit()) as nat)),
+            exponent@ % uunit() == 0 && r.is_some() ==> r.unwrap()@ == pow_fixed(self@, (exponent@ / uunit()) as nat),
+{ // <<< body extracted from crates/model/src/fixed.rs:143 (checked_pow) hash 5d89460e724274cc
+
+        let inner = self.0.checked_pow_fixed(&exponent.0)?;
+        Some(Self(inner))
+    
+} // >>> end of extracted body
+}
+
+impl Zero for Fixed {
+    open spec fn zero_spec() -> Fixed { Fixed(N(0)) }
+    fn zero() -> (r: Fixed)
+{ // <<< body extracted from crates/model/src/fixed.rs:178 (zero) hash 1a168d49715b1f7f
+
+        Self(N::zero())
+    
+} // >>> end of extracted body
+}
+impl One for Fixed {
+    open spec fn one_spec() -> Fixed { Fixed(N(100000000000000000000)) }
+    fn one() -> (r: Fixed)
+{ // <<< body extracted from crates/model/src/fixed.rs:188 (one) hash ec0492788f2542fc
+
+        Self::ONE
+    
+} // >>> end of extracted body
+}
+
+impl N {
+    pub fn checked_pow_fixed(&self, exponent: &N) -> (r: Option<N>)
+        ensures
+            exponent@ % uunit() == 0 ==> (r.is_some() <==> pow_fixed_fits(self@, (exponent@ / uunit()) as nat)),
+            exponent@ % uunit() == 0 && r.is_some() ==> r.unwrap()@ == pow_fixed(self@, (exponent@ / uunit()) as nat),
+{ // <<< body extracted from crates/model/src/fixed.rs:62 (checked_pow_fixed) hash 72a96e0a11535d6d
+
+        use std::cmp::Ordering;
+
+        let unit = N::UNIT;
+        if exponent.0 % unit.0 == 0 {
+            let exp = exponent.0 / unit.0;
+            // Note: there is a better algorithm.
+            let mut ans = Fixed::one();
+            let base = Fixed::from_inner(*self); assert(pow_fixed_fits(self@, 0nat));
+            for _it in 0..exp 
+invariant base.0 == *self, ans@ == pow_fixed(self@, _it as nat), pow_fixed_fits(self@, _it as nat), exp as int == exponent@ / uunit(), exponent@ % uunit() == 0,
+
+{
+proof { if mul_div_floor(ans@, base@, uunit()) > umax() { assert(!pow_fixed_fits(self@, (_it + 1) as nat)); if pow_fixed_fits(self@, exp as nat) { lemma_pow_fixed_fits_mono(self@, (_it + 1) as nat, exp as nat); } } }
+                ans = ans.checked_mul(&base)?;
+            }
+            return Some(ans.0);
+        }
+pow_fixed_non_unit(self, exponent)
+
+} // >>> end of extracted body
+}
+} // verus!
+
+// ---- gmsol_model::utils free functions (generic over T: instantiated at N) ----------------------
+verus! {
+
+/// `x^E` as the code evaluates it for whole-unit exponents (E = e / UNIT).
+pub open spec fn aef(v: int, e: int) -> int {
+    if v < uunit() { 0 } else if v == uunit() { uunit() } else if e == 0 { uunit() } else if e == uunit() { v }
+    else { pow_fixed(v, (e / uunit()) as nat) }
+}
+/// whether `aef` is computable without overflow of an intermediate
+pub open spec fn aef_defined(v: int, e: int) -> bool {
+    v <= uunit() || e == 0 || e == uunit() || pow_fixed_fits(v, (e / uunit()) as nat)
+}
+/// `A * x^E` = floor(aef(x,E) * A / UNIT)
+pub open spec fn apply_factors_spec(v: int, f: int, e: int) -> int { mul_div_floor(aef(v, e), f, uunit()) }
+
+pub fn usd_to_market_token_amount(usd_value: N, pool_value: N, supply: N, usd_to_amount_divisor: N) -> (r: Option<N>)
+    ensures
+        usd_to_amount_divisor@ == 0 ==> r.is_none(),
+        // first deposit: one USD buys one token unit (divided by the configured divisor), rounded down
+        usd_to_amount_divisor@ != 0 && supply@ == 0 && pool_value@ == 0 ==> r == Some(N((usd_value@ / usd_to_amount_divisor@) as u128)),
+        usd_to_amount_divisor@ != 0 && supply@ == 0 && pool_value@ != 0 ==>
+            (r.is_some() <==> pool_value@ + usd_value@ <= umax())
+            && (r.is_some() ==> r.unwrap()@ == (pool_value@ + usd_value@) / usd_to_amount_divisor@),
+        usd_to_amount_divisor@ != 0 && supply@ != 0 && pool_value@ == 0 ==> r.is_none(),
+        usd_to_amount_divisor@ != 0 && supply@ != 0 && pool_value@ != 0 ==> r == fit_u(mul_div_floor(supply@, usd_value@, pool_value@)),
+{ // <<< body extracted from crates/model/src/utils.rs:13 (usd_to_market_token_amount) hash 3f2b4e8bf587b073
+
+    if usd_to_amount_divisor.is_zero() {
+        return None;
+    }
+    if supply.is_zero() && pool_value.is_zero() {
+        usd_value.checked_div(&usd_to_amount_divisor)
+    } else if supply.is_zero() && !pool_value.is_zero() {
+        pool_value
+            .checked_add(&usd_value)?
+            .checked_div(&usd_to_amount_divisor)
+    } else {
+        supply.checked_mul_div(&usd_value, &pool_value)
+    }
+
+} // >>> end of extracted body
+
+pub fn market_token_amount_to_usd(amount: &N, pool_value: &N, supply: &N) -> (r: Option<N>)
+    ensures
+        supply@ == 0 ==> r.is_none(),
+        supply@ != 0 ==> r == fit_u(mul_div_floor(pool_value@, amount@, supply@)),
+{ // <<< body extracted from crates/model/src/utils.rs:39 (market_token_amount_to_usd) hash 5cf573991fe088d9
+
+    pool_value.checked_mul_div(amount, supply)
+
+} // >>> end of extracted body
+
+pub fn apply_factor(value: &N, factor: &N) -> (r: Option<N>)
+    ensures r == fit_u(mul_div_floor(value@, factor@, uunit())),
+{ // <<< body extracted from crates/model/src/utils.rs:108 (apply_factor) hash 99f493ce7e24e618
+
+    value.checked_mul_div(factor, &N::UNIT)
+
+} // >>> end of extracted body
+
+pub fn div_to_factor(value: &N, divisor: &N, round_up_magnitude: bool) -> (r: Option<N>)
+    ensures
+        divisor@ == 0 ==> r == Some(N(0)),
+        divisor@ != 0 && round_up_magnitude ==> r == fit_u(mul_div_ceil(value@, uunit(), divisor@)),
+        divisor@ != 0 && !round_up_magnitude ==> r == fit_u(mul_div_floor(value@, uunit(), divisor@)),
+{ // <<< body extracted from crates/model/src/utils.rs:120 (div_to_factor) hash 27880554cf6474c4
+
+    if divisor.is_zero() {
+        return Some(N::zero());
+    }
+
+    if round_up_magnitude {
+        value.checked_mul_div_ceil(&N::UNIT, divisor)
+    } else {
+        value.checked_mul_div(&N::UNIT, divisor)
+    }
+
+} // >>> end of extracted body
+
+pub fn div_to_factor_signed(value: &S, divisor: &N) -> (r: Option<S>)
+    ensures
+        divisor@ == 0 ==> r == Some(S(0)),
+        divisor@ != 0 ==> (r.is_some() <==> mul_div_floor(uunit(), abs(value@), divisor@) <= imax()),
+        divisor@ != 0 && r.is_some() ==> r.unwrap()@ == (if value@ < 0 { -mul_div_floor(uunit(), abs(value@), divisor@) } else { mul_div_floor(uunit(), abs(value@), divisor@) }),
+{ // <<< body extracted from crates/model/src/utils.rs:144 (div_to_factor_signed) hash e1f83f9d351de8ed
+
+    if divisor.is_zero() {
+        return Some(Zero::zero());
+    }
+
+    N::UNIT.checked_mul_div_with_signed_numerator(value, divisor)
+
+} // >>> end of extracted body
+
+pub fn apply_exponent_factor_wrapped(value: N, exponent_factor: N) -> (r: Option<Fixed>)
+    ensures
+        exponent_factor@ % uunit() == 0 ==> (r.is_some() <==> aef_defined(value@, exponent_factor@)),
+        exponent_factor@ % uunit() == 0 && r.is_some() ==> r.unwrap()@ == aef(value@, exponent_factor@),
+        // a value below one unit is cut to zero and a unit value stays a unit whatever the exponent
+        value@ < uunit() ==> r.is_some() && r.unwrap()@ == 0,
+        value@ == uunit() ==> r.is_some() && r.unwrap()@ == uunit(),
+{ // <<< body extracted from crates/model/src/utils.rs:64 (apply_exponent_factor_wrapped) hash 24a847eeed159613
+
+    let unit = Fixed::ONE;
+    let value = Fixed::from_inner(value);
+    let exponent = Fixed::from_inner(exponent_factor);
+
+    let ans = match value.cmp(&unit) {
+        Ordering::Less => Fixed::zero(),
+        Ordering::Equal => unit,
+        Ordering::Greater => {
+            if exponent.is_zero() {
+                unit
+            } else if exponent.is_one() {
+                value
+            } else {
+                value.checked_pow(&exponent)?
+            }
+        }
+    };
+    Some(ans)
+
+} // >>> end of extracted body
+
+pub fn apply_exponent_factor(value: N, exponent_factor: N) -> (r: Option<N>)
+    ensures
+        exponent_factor@ % uunit() == 0 ==> (r.is_some() <==> aef_defined(value@, exponent_factor@)),
+        exponent_factor@ % uunit() == 0 && r.is_some() ==> r.unwrap()@ == aef(value@, exponent_factor@),
+{ // <<< body extracted from crates/model/src/utils.rs:95 (apply_exponent_factor) hash 4506a053f7453366
+
+    Some(apply_exponent_factor_wrapped(value, exponent_factor)?.into_inner())
+
+} // >>> end of extracted body
+
+pub fn apply_factors(value: N, factor: N, exponent_factor: N) -> (r: Result<N, E>)
+    ensures
+        exponent_factor@ % uunit() == 0 ==> (r.is_ok() <==> aef_defined(value@, exponent_factor@) && apply_factors_spec(value@, factor@, exponent_factor@) <= umax()),
+        exponent_factor@ % uunit() == 0 && r.is_ok() ==> r.unwrap()@ == apply_factors_spec(value@, factor@, exponent_factor@),
+{ // <<< body extracted from crates/model/src/utils.rs:49 (apply_factors) hash b64cbc9cd9d158cb
+
+    Ok(apply_exponent_factor_wrapped(value, exponent_factor)
+        .ok_or(E::PowComputation)?
+        .checked_mul(&Fixed::from_inner(factor))
+        .ok_or(E::Overflow)?
+        .into_inner())
+
+} // >>> end of extracted body
 
 } // verus!
 
